@@ -22,8 +22,13 @@ def parked_case(draw):
   n = draw(st.integers(1, 8))
   ops = [[draw(st.sampled_from(["post_fifo", "post_lifo", "publish", "publish", "publish_via_ao"])),
           draw(st.sampled_from(SIGS))] for _ in range(n)]
+  # each subscription is made before start_at or at run time; a foreign plain deque may
+  # subscribe to the same signals before or after the active object does
   return {"subs": subs, "ops": ops, "schedule": [list(x) for x in draw(schedule_st)],
-          "default_kind": draw(st.booleans())}
+          "default_kind": draw(st.booleans()),
+          "when": [draw(st.sampled_from(["before", "before", "runtime"])) for _ in subs],
+          "foreign": draw(st.sampled_from(["none", "none", "first", "last"])),
+          "foreign_kind": draw(st.sampled_from(["lifo", "fifo"]))}
 
 
 class C09(Prop):
@@ -31,7 +36,9 @@ class C09(Prop):
   quick_examples = 300
   thorough_examples = 4000
   rule = ("Generated scenarios under the deterministic scheduler: one ActiveObject subscribes "
-          "(before start_at) to each of three signals with fifo, lifo, both or no subscription; "
+          "(each subscription before start_at or at run time) to each of three signals with fifo, lifo, "
+          "both or no subscription, optionally with a foreign plain deque subscribed to the same "
+          "signals before or after it; "
           "its thread is then parked inside a handler that waits on a harness gate while the body "
           "performs 1-8 generated operations post_fifo / post_lifo / fabric publish / publish "
           "through the object, each followed by a settle (every thread blocked, so the delivery "
@@ -67,13 +74,32 @@ class C09(Prop):
           s.block(lambda: rec.gate["open"], None, what="gate")
       fn = aocheck.flat_chart(rec, on_dispatch=on_dispatch, sigs=SIGS + ["VGATE"])
       kinds = {}
-      for sig, kind in case["subs"]:
+      when = case.get("when") or ["before"] * len(case["subs"])
+      foreign_q = __import__("collections").deque(maxlen=50)
+
+      def foreign_subscribe():
+        for sig in SIGS:
+          ao.ActiveFabric().subscribe(foreign_q, Event(signal=signals[sig]),
+                                      queue_type=case.get("foreign_kind", "lifo"))
+
+      def subscribe(sig, kind):
         kinds.setdefault(sig, []).append(kind)
         if kind == "fifo" and case["default_kind"]:
           chart.subscribe(Event(signal=signals[sig]))
         else:
           chart.subscribe(Event(signal=signals[sig]), queue_type=kind)
+      if case.get("foreign") == "first":
+        foreign_subscribe()
+      for (sig, kind), w_ in zip(case["subs"], when):
+        if w_ == "before":
+          subscribe(sig, kind)
       chart.start_at(fn)
+      s.quiesce()
+      for (sig, kind), w_ in zip(case["subs"], when):
+        if w_ == "runtime":
+          subscribe(sig, kind)
+      if case.get("foreign") == "last":
+        foreign_subscribe()
       s.quiesce()
       chart.post_fifo(Event(signal=signals["VGATE"], payload=0))
       s.quiesce()
